@@ -19,17 +19,22 @@ def loop_inv(k, header, kw):
 
 UNIT = Unit(
     name="U-DYNVIS",
-    properties=["C17"],
+    properties=["C17", "C04"],
+    # C04 only claims the clause whose violation crashes the backend (the table type of a coerced expression)
+    clause_scope={"C04": {"only": ["table_type_ok("]}},
     rules=["attrs", "fmtmsg", ("strip", "tast::"), ("strip", "common_defs::"), ("strip", "hir::"), ("strip", "super::util::"), "iter_any"],
     describe="Typer::coerce_to_expected_dyn + has_visible_trait_impl: a value is wrapped into `EToDyn { trait, for_ty, .. }` only if the "
              "expected type is a dyn type, for_ty is exactly the value's type, and an `impl trait for for_ty` is in the package being "
              "checked or in one it imports; otherwise the expression is returned unchanged. has_visible_trait_impl answers exactly that "
-             "visibility question",
+             "visibility question; the tail of Typer::check_expr records the coerced expression's OWN type in the typing table",
     trusted=["PackageTypeEnv / GlobalTypeEnv / TraitEnv / Typer are partial shims (only the fields the two functions read); "
              "trait_impls is modelled by key membership",
              "resolve_trait_name and is_concrete_dyn_target are stubs without contracts (the clause does not depend on them)",
              "`v.get_mut(i)` is rewritten to a bounds test + `&mut v[i]` (std semantics of get_mut assumed)",
-             "derived Clone is an identical copy (trait VClone); str::to_string copies the text"],
+             "derived Clone is an identical copy (trait VClone); str::to_string copies the text",
+             "FRAGMENT check_expr_tail: the arms of check_expr are dropped; ASSUMED (precondition): the expression they produce is not itself a dyn wrapper — "
+             "EToDyn has one construction site in check.rs, inside coerce_to_expected_dyn; record_expr_result / record_expr_ty / push_constraint are stubs "
+             "(the table entry of the expression is all that is modelled)"],
     items=[
         Adt(file=T, kw="enum", name="Ty", rules=["attrs"]),
         Adt(file=T, kw="struct", name="TastIdent", rules=["attrs"]),
@@ -65,5 +70,14 @@ UNIT = Unit(
             r == expr || (r matches Expr::EToDyn { trait_name, for_ty, expr: inner, ty, astptr }
                 && *inner == expr && for_ty == expr_ty(expr) && ty == *expected && *expected is TDyn
                 && visible(*genv, trait_name.0@, for_ty)),"""),
+        Fn(file=C, name="check_expr", container="Typer", as_method_of="Typer", rename="check_expr_tail", ret="r",
+           cut_from=re.compile(r"(?:let uncoerced_ty = expr_tast\.get_ty\(\);\s*)?let expr_tast = self\.coerce_to_expected_dyn\("), cut_tail="",
+           sig="pub fn check_expr_tail(&mut self, genv: &PackageTypeEnv, diagnostics: &mut Diagnostics, e: ExprId, expr_tast: Expr, expected: &Ty) -> Expr",
+           rewrites=[CLONE, (re.compile(r"Constraint::TypeEqual\("), "constraint_type_equal(", "*"),
+                     (re.compile(r"matches!\((\w+), Expr::EToDyn \{ \.\. \}\)"), r"(match \1 { Expr::EToDyn { .. } => true, _ => false })", "*")],
+           obligation="the typing table records, for an expression that check_expr wraps into a dyn value, the expression's OWN type (the wrapper is added "
+                      "by the recorded coercion), never the dyn type",
+           contract="""requires coercions_wf(old(self).results), !(expr_tast is EToDyn),
+        ensures coercions_wf(final(self).results), table_type_ok(r, final(self).results.ty_at(e)),"""),
     ],
 )
